@@ -49,7 +49,7 @@ func genCase(t *rapid.T) Case {
 		k := rapid.IntRange(1, nq).Draw(t, fmt.Sprintf("nq%d", i))
 		for j := 0; j < k; j++ {
 			vec, limit, w, f := gen.VecQueryParts(t, fmt.Sprintf("q%d.%d", i, j), g.M, g.Pool, gen.PFlat, 75)
-			q := oracle.VecQuery{Prop: gen.PFlat, Vector: vec, Limit: limit, Weight: w, Filter: f}
+			q := oracle.VecQuery{Prop: gen.PFlat, Vector: vec, Limit: limit, Weight: w, Filter: f, Stray: rapid.IntRange(0, 3).Draw(t, fmt.Sprintf("stray%d.%d", i, j)) == 0}
 			gen.MustValid(q.ToQuery(schema), schema)
 			qs = append(qs, q)
 		}
